@@ -137,11 +137,23 @@ def search(ctx, N):
             def g(x, a, b=0.0):
                 seen.append((a, b))
                 return a * x * x + b * x
-            val = nd.Derivative(g, n=n, method=method)(np.array([1.0, 2.0]), 3.0, b=5.0)
+            def right(s):
+                try:
+                    return np.ndim(s[0]) == 0 and np.ndim(s[1]) == 0 and float(s[0]) == 3.0 and float(s[1]) == 5.0
+                except Exception:   # noqa
+                    return False
+            how = {'n': n, 'method': method, 'how': 'def g(x, a, b=0.0): ...; nd.Derivative(g, n=n, method=method)(np.array([1., 2.]), 3.0, b=5.0)'}
+            try:
+                val = nd.Derivative(g, n=n, method=method)(np.array([1.0, 2.0]), 3.0, b=5.0)
+            except Exception as ex:   # noqa
+                ctx.violation('args:n=%d' % n, 'nd.Derivative(g, n=%d, method=%r)(x, 3.0, b=5.0) raises %r; g received (a, b) = %r' % (n, method, ex, [repr(s)[:80] for s in seen if not right(s)][:2]), how)
+                continue
             ctx.count(1, ('search', 'args', n, method))
-            if not seen or any(s != (3.0, 5.0) for s in seen):
+            if not seen or not all(right(s) for s in seen):
                 ctx.violation('args:n=%d' % n, 'nd.Derivative(g, n=%d, method=%r)(x, 3.0, b=5.0): g received (a, b) = %r on some evaluation (expected (3.0, 5.0) on every one)' % (
-                    n, method, [s for s in seen if s != (3.0, 5.0)][:2]), {'n': n, 'method': method, 'how': 'def g(x, a, b=0.0): ...; nd.Derivative(g, n=n, method=method)(np.array([1., 2.]), 3.0, b=5.0)'})
+                    n, method, [repr(s)[:80] for s in seen if not right(s)][:2]), how)
+            elif n >= 1 and not np.allclose(val, {1: 6.0 * np.array([1.0, 2.0]) + 5.0, 2: 6.0 * np.ones(2), 3: np.zeros(2)}[n], rtol=1e-6, atol=1e-5):
+                ctx.violation('args-value:n=%d' % n, 'nd.Derivative(g, n=%d, method=%r)(x, 3.0, b=5.0) = %r is not the derivative of 3 x^2 + 5 x' % (n, method, np.asarray(val).tolist()), how)
             elif n == 0 and not np.allclose(val, 3.0 * np.array([1.0, 4.0]) + 5.0 * np.array([1.0, 2.0])):
                 ctx.violation('args-value:n=0', 'n = 0 does not return g(x, 3.0, b=5.0)', {'n': n, 'method': method})
 
